@@ -9,6 +9,9 @@
    over input types built from the five built-in scalars, enums and (recursive, OneOf) input
    objects whose defaults are literals (what build_schema produces).  Definitions only.
 
+   Tuples ([PTuple], used by the C16 enum model) are outside this model's fragment: the
+   implementation iterates them like lists; the C15 harness skips values that contain one.
+
    The implementation returns Undefined both for "invalid" and for "no value"; the model has the
    constructor [Invalid] for exactly that overloaded Undefined.  [Crash] is an exception other
    than the coercers' own (TypeError of coerce_default_value for an invalid default, a type name
